@@ -23,8 +23,13 @@ SizeCases == {[t |-> "size", tag |-> 2049, sub |-> <<[tag |-> 1, len |-> a], [ta
 (* every two-byte prefix: how a header reader must classify it *)
 PrefixCases == {[t |-> "prefix", b0 |-> x] : x \in 0..255}
 
+(* stream readers with a buffer just below, at and just above the element's size, and with the tiny and the maximum buffers *)
+SLens == {0, 1, 2, 253, 254, 255, 256, 65534, 65535}
+StreamCases == {[t |-> "stream", tag |-> g, len |-> l, buf |-> b] : g \in {1, 32}, l \in SLens, b \in 0..4 \cup {65538, 65539}}
+               \cup {[t |-> "stream", tag |-> g, len |-> l, buf |-> HdrLen(g, l) + l + d] : g \in {1, 32}, l \in SLens, d \in {-1, 0, 1}}
+
 VARIABLE c
-Init == c \in {[t |-> "tree", tree |-> x] : x \in TreeCases} \cup HdrCases \cup SizeCases \cup PrefixCases
+Init == c \in {[t |-> "tree", tree |-> x] : x \in TreeCases} \cup HdrCases \cup SizeCases \cup PrefixCases \cup StreamCases
 Next == UNCHANGED c
 Spec == Init /\ [][Next]_c
 
@@ -32,6 +37,8 @@ Theorems ==
     /\ c.t = "tree" => /\ RoundTrip(c.tree) /\ MinimalHeader(c.tree) /\ TruncationsRejected(c.tree)
                        /\ ReadOneConsumesOne(c.tree, <<>>) /\ ReadOneConsumesOne(c.tree, <<1, 0>>)
     /\ c.t = "hdr" => HeaderRoundTrip(c.tag, c.nc, c.fw, c.len)
+    /\ c.t = "stream" => /\ StreamExact(c.tag, c.len)
+                         /\ LET r == StreamRead(c.tag, c.len, c.buf) IN r.ok => (r.used <= c.buf /\ r.used = Len(Header(c.tag, FALSE, FALSE, c.len)) + c.len)
     /\ c.t = "prefix" => \A b1 \in 0..255 :
                            LET d == DecodeHeader(<<c.b0, b1, 0, 5>>) IN d.ok /\ d.hdr = (IF c.b0 >= 128 THEN 4 ELSE 2)
                                 /\ d.tag = (IF c.b0 >= 128 THEN (c.b0 % 32) * 256 + b1 ELSE c.b0 % 32)
@@ -48,6 +55,7 @@ Expected ==
     CASE c.t = "tree" -> [bytes |-> Encode(c.tree), shape |-> ShapeOf(c.tree), variants |-> Variants(c.tree)]
       [] c.t = "hdr"  -> [ok |-> Encodable(c.tag, c.len), hdr |-> IF Encodable(c.tag, c.len) THEN Header(c.tag, c.nc, c.fw, c.len) ELSE <<>>]
       [] c.t = "size" -> [size |-> SizeOf(IF "sub" \in DOMAIN c THEN [tag |-> c.tag, sub |-> c.sub] ELSE [tag |-> c.tag, len |-> c.len])]
+      [] c.t = "stream" -> StreamRead(c.tag, c.len, c.buf) @@ [hdr |-> Header(c.tag, FALSE, FALSE, c.len)]
       [] c.t = "prefix" -> [hdr |-> IF c.b0 >= 128 THEN 4 ELSE 2]
 Emit == PrintT("CASE " \o ToJson([c |-> c, x |-> Expected]))
 =============================================================================
